@@ -136,6 +136,34 @@ func suitePollFail(e *vh.Env) {
 		e.Count(kind)
 		e.Sample(map[string]interface{}{"failure": kind, "list_calls_in_500ms": len(calls)})
 	}
+	// the doubling goes on until the 3 s cap is reached (thorough tier: it takes 4 s of failures to get there)
+	if e.Thorough() && e.Want(900) {
+		fp := &failingProxy{kind: "500-body"}
+		client := &http.Client{Transport: fp}
+		ctx, cancel := context.WithCancel(context.Background())
+		done := make(chan struct{})
+		go func() {
+			pollForNewRequests(ctx, client, http.NotFoundHandler(), "backend-1")
+			close(done)
+		}()
+		time.Sleep(11 * time.Second)
+		fp.mu.Lock()
+		calls := append([]time.Time(nil), fp.calls...)
+		fp.mu.Unlock()
+		cancel()
+		<-done
+		for k := 13; k < len(calls); k++ {
+			if gap := calls[k].Sub(calls[k-1]); gap < 2600*time.Millisecond || gap > 3500*time.Millisecond {
+				e.Fail("C08:delay-off-the-cap", fmt.Sprintf("proxy failing for 11 s: the gap before list call %d was %v; after twelve doublings the delay is the 3 s cap (within 10%%)", k+1, gap), 900, nil, gap.String(), "about 3s")
+				break
+			}
+		}
+		if len(calls) < 14 {
+			e.Fail("C08:too-few-polls", fmt.Sprintf("only %d list calls in 11 s of failures", len(calls)), 900, nil, len(calls), 14)
+		}
+		e.Eval("reaches-the-cap", true)
+		e.Count("eleven-seconds-of-failures")
+	}
 	// "returns to the shortest delay after the first success": k failures, one success (an idle answer: empty list or
 	// empty body), then failures again - the first delay after the success must be the shortest one again
 	for j, succ := range []string{"200-empty-list", "200-empty-body"} {
